@@ -72,8 +72,27 @@ Proof.
   apply andb_true_iff in H4 as [H4 H5]. exists ent, cred. repeat split; assumption.
 Qed.
 
-(* ... and on the tree as it is the converse holds too: the characterisation is exact. *)
+(* ... and on the tree as it is (with the hash-field guard of /repo 054a9cd) the characterisation
+   is exact once the guard is named: a "$5$" field must also carry a canonical 43-character hash. *)
 Theorem C43_fallback_success_iff : forall o h ct users shadow yt, handler_sane h = true ->
+  r_out (auth_fallback_gen true o h ct users shadow yt) = ORet PAM_SUCCESS <->
+  exists ent cred,
+    local_entry h users shadow = Some ent /\ expired ct ent = false /\
+    supplied_password o h = Some cred /\
+    supported (s_pw ent) = true /\ field_guard (s_pw ent) = true /\
+    crypt_verifies yt (s_pw ent) cred = true.
+Proof.
+  intros o h ct users shadow yt H.
+  rewrite (fallback_fixed_success_iff o h ct users shadow yt H).
+  split; intros (ent & cred & H1 & H2 & H3 & H4); exists ent, cred.
+  - apply andb_true_iff in H4 as [H4 H5]. apply andb_true_iff in H5 as [H5 H6].
+    repeat split; assumption.
+  - destruct H4 as (H4 & H5 & H6). repeat split; try assumption. rewrite H4, H5, H6. reflexivity.
+Qed.
+
+(* The originally pinned tree (no guard; it PANICKED on malformed "$5$" hash fields, see
+   C43_witness_sha256_panic): there the characterisation without the guard was exact. *)
+Theorem C43_prefix_fallback_success_iff : forall o h ct users shadow yt, handler_sane h = true ->
   r_out (auth_fallback_gen false o h ct users shadow yt) = ORet PAM_SUCCESS <->
   exists ent cred,
     local_entry h users shadow = Some ent /\ expired ct ent = false /\
